@@ -123,3 +123,36 @@ pub fn msl_reserved() -> Vec<String> {
     out.dedup();
     out
 }
+
+/// Class of a reserved / built-in name (signatures of hygiene findings are keyed on the class, not on each of the
+/// several hundred vector / matrix spellings)
+pub fn name_class(name: &str, msl: bool) -> &'static str {
+    if CXX_KEYWORDS.contains(&name) {
+        return "cxx-keyword";
+    }
+    if msl {
+        if MSL_KEYWORDS.contains(&name) {
+            return "msl-keyword";
+        }
+        if MSL_SCALARS.contains(&name) {
+            return "scalar-type-name";
+        }
+        if name == "main" || name == "as_type" {
+            return "special-name";
+        }
+        return "vector-or-matrix-type-name";
+    }
+    if HLSL_KEYWORDS.contains(&name) {
+        return "hlsl-keyword";
+    }
+    if HLSL_SCALARS.contains(&name) {
+        return "scalar-type-name";
+    }
+    if HLSL_OBJECTS.contains(&name) {
+        return "object-type-name";
+    }
+    if HLSL_INTRINSICS.contains(&name) {
+        return "intrinsic-name";
+    }
+    "vector-or-matrix-type-name"
+}
